@@ -15,5 +15,5 @@ git apply $O/patch.diff
 # scratch copy for our checks
 M=/tmp/mrepo_$P; rm -rf $M; mkdir $M; (cd /repo && git archive HEAD | tar -x -C $M; cp /repo/Cargo.lock $M/ 2>/dev/null); (cd $M && git init -q . 2>/dev/null; git apply --unsafe-paths $O/patch.diff 2>/dev/null || patch -p1 -s < $O/patch.diff)
 echo "== diff applied to scratch:"; (cd $M && diff -r -q /repo/contracts $M/contracts; diff -r -q /repo/packages $M/packages) | head
-for p in ${P:0:3} "$@"; do VERIF_REPO=$M /verif/check $p 2>&1 | grep -E "VIOLATION|UNDECIDED|tier=" | head -6; done
+for p in ${PROP:-${P:0:3}} "$@"; do VERIF_REPO=$M /verif/check $p 2>&1 | grep -E "VIOLATION|UNDECIDED|tier=" | head -6; done
 T=$(python3 -c "import hashlib,os;print(hashlib.sha256(os.path.realpath('$M').encode()).hexdigest()[:10])"); rm -rf $M /verif/build/alt-$T /verif/build/target-$T /verif/build/replay_crate-$T /verif/build/bin/krp-replay-$T
